@@ -70,6 +70,12 @@ func (m *GroupLeaseManager) Owns(groupID string) bool {
 	return m.lm.Owns(groupID)
 }
 
+// Generation returns how many times this broker has acquired the group's
+// lease. It changes whenever the lease is (re)gained.
+func (m *GroupLeaseManager) Generation(groupID string) uint64 {
+	return m.lm.Generation(groupID)
+}
+
 // Release explicitly gives up ownership of a single group.
 func (m *GroupLeaseManager) Release(groupID string) {
 	m.lm.Release(groupID)
